@@ -29,15 +29,31 @@ class Custom:
 
 
 class NestedTokenizer:
-    """__dask_tokenize__ that calls tokenize() itself (nested call path)."""
+    """__dask_tokenize__ that calls tokenize() itself (nested call path).  The token the nested call
+    returned is kept so that the oracle can compare it with a top-level tokenize() of an equal payload."""
 
-    def __init__(self, payload):
+    instances: list = []
+
+    def __init__(self, payload, spec=None):
         self.payload = payload
+        self.spec = spec
+        self.inner = None
+        if spec is not None:
+            NestedTokenizer.instances.append(self)
 
     def __dask_tokenize__(self):
         from dask.tokenize import tokenize
 
-        return "Nested", tokenize(self.payload)
+        self.inner = tokenize(self.payload)
+        return "Nested", self.inner
+
+    def __reduce__(self):
+        return NestedTokenizer, (self.payload,)
+
+    def __deepcopy__(self, memo):
+        import copy
+
+        return NestedTokenizer(copy.deepcopy(self.payload, memo))
 
 
 class Exploding:
@@ -152,7 +168,7 @@ def build(spec):
     if k == "custom":
         return Custom(build(spec[1]))
     if k == "nested_tok":
-        return NestedTokenizer(build(spec[1]))
+        return NestedTokenizer(build(spec[1]), spec[1])
     if k == "exploding":
         return Exploding(build(spec[1]))
     raise AssertionError(k)
